@@ -498,7 +498,14 @@ func init() {
 		}
 		panic(inconclusive{"regexp match without a harness-provided outcome"})
 	}
-	stubs["(*regexp.Regexp).String"] = func(e *Exec, fn *ssa.Function, args []value) value { return "<regexp>" }
+	stubs["(*regexp.Regexp).String"] = func(e *Exec, fn *ssa.Function, args []value) value {
+		if p, ok := args[0].(*value); ok && p != nil {
+			if s, ok := (*p).(string); ok && strings.HasPrefix(s, "regexp:") {
+				return strings.TrimPrefix(s, "regexp:")
+			}
+		}
+		return "<regexp>"
+	}
 	stubs["regexp.MustCompile"] = func(e *Exec, fn *ssa.Function, args []value) value {
 		p := new(value)
 		*p = "regexp:" + e.concretizeStr(args[0])
